@@ -5,11 +5,12 @@ operations valid; it is not an oracle (the oracle is the Lean spec stream)."""
 import random
 
 KIND_SIZE = {'u8': 1, 'u16': 2, 'u32': 4, 'u64': 8, 'u128': 16, 'u256': 32, 'h256': 32, 'cont': 41,
-             'var': None, 'nest': None}
+             'var': None, 'nest': None, 'nest2': None}
 PF = {'u8': 32, 'u16': 16, 'u32': 8, 'u64': 4, 'u128': 2, 'u256': 1, 'h256': None, 'cont': None,
-      'var': None, 'nest': None}
-KINDS = [k for k in KIND_SIZE if k != 'nest']   # 'nest' is only compiled for a few capacities
+      'var': None, 'nest': None, 'nest2': None}
+KINDS = [k for k in KIND_SIZE if k not in ('nest', 'nest2')]   # 'nest' is only compiled for a few capacities
 NEST_N = [4, 8, 9, 33, 1024]
+NEST2_N = [3, 4, 5, 8, 9, 17]
 MAPS = ['btree', 'vec', 'maxvec']
 SMALL_N = [1, 2, 3, 4, 5, 7, 8, 9, 16, 17, 32, 33]
 BIG = {'u8': [1024, 2 ** 40, 64, 100, 256], 'u16': [64, 100], 'u64': [1024, 2 ** 40, 2 ** 50],
@@ -55,6 +56,17 @@ def val(rng, kind, prev=None, pzero=0.4):
     """A value of `kind` as SSZ hex; zeros, small values, all-ones and repeats are favoured."""
     size = KIND_SIZE[kind]
     r = rng.random()
+    if kind == 'nest2':
+        # canonical SSZ of 0..4 inner byte lists (each 0..8 bytes)
+        k = 0 if r < pzero * 0.5 else rng.randint(0, 4)
+        inner = [bytes(rng.choice([0, 1, 255, rng.randrange(256)]) for _ in range(rng.choice([0, 0, 1, 3, 8])))
+                 for _ in range(k)]
+        off = 4 * k
+        head = b''
+        for b in inner:
+            head += off.to_bytes(4, 'little')
+            off += len(b)
+        return hexs(head + b''.join(inner))
     if kind == 'nest':
         if r < pzero:
             return hexs(bytes(8 * rng.choice([0, 1, 4, 5, 16])))
@@ -142,6 +154,10 @@ class HistGen:
         self.big = self.N > 1024
         self.allow_vectors = allow_vectors and not self.big and self.N <= 40
         self.observe = observe  # callable(self, slot) appending observation lines
+        # may `k~v` (get_mut_with) entries of a bulk map lie at or beyond the current length? (a MaxMap
+        # filled that way under-reports its largest key: inadmissible for MaxMap only, so the
+        # three-map comparison of C14 keeps such entries below the length)
+        self.entry_ext = True
         self.weights = dict(DEFAULT_WEIGHTS)
         if weights:
             self.weights.update(weights)
@@ -353,21 +369,33 @@ class HistGen:
                 kvs = {k: v for k, v in kvs.items() if k < 4096}
         items = list(kvs.items())
         rng.shuffle(items)   # insertion order is arbitrary
+        # some entries are filled through `get_mut_with` (`k~v`) instead of `insert` (`k:v`): the
+        # default MaxMap does not raise its max_key for those
+        via_entry = {k: (rng.random() < (0.3 if not admissible else 0.15)) and (self.entry_ext or k < n)
+                     for k, _ in items}
+        dup = None
         if rng.random() < 0.2 and items:
             k0, _ = items[0]
-            items.append((k0, self.v()))   # duplicate key: the later insert wins
-            kvs[k0] = items[-1][1]
-        self.emit('bulk %d %s' % (h, ' '.join('%d:%s' % kv for kv in items)),
-                  'bulk' if admissible else 'bulk_bad')
+            dup = (k0, self.v())        # duplicate key: the later `insert` wins
+            kvs[k0] = dup[1]
+        toks = ['%d%s%s' % (k, '~' if via_entry[k] else ':', v) for k, v in items]
+        if dup:
+            toks.append('%d:%s' % dup)
+        self.emit('bulk %d %s' % (h, ' '.join(toks)), 'bulk' if admissible else 'bulk_bad')
         ok = not c['dirty']
-        if ok:
+        if ok and kvs:
             keys = sorted(kvs)
-            if any(k >= self.N for k in keys):
+            if self.map == 'maxvec':
+                ins = [k for k in keys if not via_entry[k] or (dup and k == dup[0])]
+                mx = max(ins) if ins else 0
+            else:
+                mx = keys[-1]
+            if mx >= self.N:
                 ok = False
             nxt = n
             for k in keys:
                 if k >= n:
-                    if k != nxt:
+                    if k != nxt or k > mx:
                         ok = False
                     nxt += 1
         if ok and kvs:
